@@ -59,6 +59,19 @@ def build_driver(ctx):
     return vlib.go_build(ctx, "wiredrv", tags=tags)
 
 
+def selftest(ctx, binary):
+    """The reference decoder is the trusted oracle: before it judges the library it must accept the frames of the
+    independent builders (DHCP replies, forged ARP, NA spoof, echo, NS) and reject each single corruption."""
+    p = vlib.run_driver(ctx, binary, ["-selftest"], timeout=120)
+    try:
+        s = json.loads(p.stdout.strip().splitlines()[-1])
+    except Exception as ex:
+        raise vlib.InfraError("wiredrv -selftest gave no result: %s" % ex)
+    if s.get("failed") or not s.get("cases"):
+        raise vlib.InfraError("reference decoder self-test failed: %s" % s.get("failed"))
+    return s["cases"]
+
+
 def drive(ctx, binary, mode, vectors, k, label, timeout=900, extra=()):
     vp = os.path.join(ctx.scratch, "%s.vec.ndjson" % label)
     rp = os.path.join(ctx.scratch, "%s.res.ndjson" % label)
